@@ -499,3 +499,184 @@ func corrNumLaws(c *vh.Ctx) {
 	}
 	c.HitN("num-laws", len(vals))
 }
+
+// ---- items: BEGIN / pattern-action / END / function, in the order Program.String() prints them -------------------------
+
+func itemText(ws []string) string { return stokText(ws) }
+
+// progReal parses a whole program skeleton; items in the model's notation (Begin, Actions, End, Functions order)
+func progReal(text string) (tree, printed string) {
+	defer func() {
+		if r := recover(); r != nil {
+			tree, printed = "PANIC "+fmt.Sprint(r), ""
+		}
+	}()
+	prog, err := parser.ParseProgram([]byte(text), nil)
+	if err != nil {
+		msg := err.Error()
+		if strings.Contains(msg, "can't use") || strings.Contains(msg, "already defined") || strings.Contains(msg, "duplicate") || strings.Contains(msg, "can't") {
+			return "skip", ""
+		}
+		return "reject", ""
+	}
+	root := reflect.ValueOf(prog.ResolvedProgram.Program)
+	var items []string
+	for i := 0; i < root.FieldByName("Begin").Len(); i++ {
+		items = append(items, "(begin "+stConvList(root.FieldByName("Begin").Index(i))+")")
+	}
+	acts := root.FieldByName("Actions")
+	for i := 0; i < acts.Len(); i++ {
+		a := acts.Index(i).Elem()
+		var ps []string
+		for k := 0; k < a.FieldByName("Pattern").Len(); k++ {
+			ps = append(ps, stID(a.FieldByName("Pattern").Index(k)))
+		}
+		body := "nil"
+		if !a.FieldByName("Stmts").IsNil() {
+			body = stConvList(a.FieldByName("Stmts"))
+		}
+		items = append(items, "(action ["+strings.Join(ps, " ")+"] "+body+")")
+	}
+	for i := 0; i < root.FieldByName("End").Len(); i++ {
+		items = append(items, "(end "+stConvList(root.FieldByName("End").Index(i))+")")
+	}
+	fns := root.FieldByName("Functions")
+	for i := 0; i < fns.Len(); i++ {
+		f := fns.Index(i).Elem()
+		var ps []string
+		for k := 0; k < f.FieldByName("Params").Len(); k++ {
+			ps = append(ps, f.FieldByName("Params").Index(k).String()[1:])
+		}
+		items = append(items, "(func "+f.FieldByName("Name").String()[2:]+" ["+strings.Join(ps, " ")+"] "+stConvList(f.FieldByName("Body"))+")")
+	}
+	return strings.Join(items, " "), prog.String()
+}
+
+func progLexWords(text string) []string {
+	ws := stLexWords(text)
+	for i, w := range ws {
+		if strings.HasPrefix(w, "?fn") {
+			ws[i] = w[1:]
+		} else if strings.HasPrefix(w, "?p") {
+			ws[i] = w[1:]
+		}
+	}
+	return ws
+}
+
+func corrItems(c *vh.Ctx) {
+	g := &stGen{c: c}
+	type kase struct {
+		toks  []string
+		class string
+	}
+	var cases []kase
+	for n, total := 0, c.N(1200, 20000); n < total; n++ {
+		for _, canonical := range []bool{true, false} {
+			var ws []string
+			sep := func() {
+				if len(ws) == 0 {
+					return
+				}
+				last := ws[len(ws)-1]
+				switch {
+				case canonical:
+					ws = append(ws, "nl", "nl")
+				case last == "}" && c.Rng.Intn(2) == 0: // after a closing brace the terminator is optional
+				case c.Rng.Intn(2) == 0:
+					ws = append(ws, ";")
+				default:
+					ws = append(ws, "nl")
+				}
+			}
+			body := func() []string { return g.braces(g.list(1+c.Rng.Intn(2), 2), canonical) }
+			for k, m := 0, c.Rng.Intn(2); k < m; k++ {
+				sep()
+				ws = append(ws, append([]string{"BEGIN"}, body()...)...)
+			}
+			for k, m := 0, c.Rng.Intn(3); k < m; k++ {
+				sep()
+				np := c.Rng.Intn(3)
+				withBody := np == 0 || c.Rng.Intn(2) == 0
+				for q := 0; q < np; q++ {
+					if q > 0 {
+						ws = append(ws, ",")
+						if !canonical && c.Rng.Intn(3) == 0 {
+							ws = append(ws, "nl")
+						}
+					}
+					ws = append(ws, fmt.Sprintf("e%d", g.next()))
+				}
+				if withBody {
+					ws = append(ws, body()...)
+				}
+			}
+			for k, m := 0, c.Rng.Intn(2); k < m; k++ {
+				sep()
+				ws = append(ws, append([]string{"END"}, body()...)...)
+			}
+			for k, m := 0, c.Rng.Intn(3); k < m; k++ {
+				sep()
+				ws = append(ws, "function", fmt.Sprintf("fn%d", n*4+k), "(")
+				for q, np := 0, c.Rng.Intn(3); q < np; q++ {
+					if q > 0 {
+						ws = append(ws, ",")
+						if !canonical && c.Rng.Intn(3) == 0 {
+							ws = append(ws, "nl")
+						}
+					}
+					ws = append(ws, fmt.Sprintf("p%d", q))
+				}
+				ws = append(ws, ")")
+				if !canonical && c.Rng.Intn(3) == 0 {
+					ws = append(ws, "nl")
+				}
+				ws = append(ws, body()...)
+			}
+			if len(ws) == 0 {
+				continue
+			}
+			cases = append(cases, kase{ws, map[bool]string{true: "printed-spelling", false: "free-spelling"}[canonical]})
+			if !canonical && c.Rng.Intn(2) == 0 {
+				cases = append(cases, kase{g.mutate(ws), "mutated"})
+			}
+		}
+	}
+	reqs := make([]string, 0, 2*len(cases))
+	for _, k := range cases {
+		reqs = append(reqs, "prog "+strings.Join(k.toks, " "), "showprog "+strings.Join(k.toks, " "))
+	}
+	trees := make([]string, len(cases))
+	prints := make([]string, len(cases))
+	vh.Parallel(len(cases), func(i int) { trees[i], prints[i] = progReal(itemText(cases[i].toks)) })
+	answers := c.LeanBatch(reqs)
+	for i, k := range cases {
+		real := trees[i]
+		if real == "skip" || strings.Contains(real, "?") {
+			c.Hit("prog-corr-skipped")
+			continue
+		}
+		model := "reject"
+		if a := answers[2*i]; strings.HasPrefix(a, "ok") {
+			model = strings.TrimPrefix(strings.TrimPrefix(a, "ok"), " ")
+		} else if a != "reject" {
+			model = "BAD " + a
+		}
+		c.Trace()
+		c.Hit("prog-corr:" + k.class + ":" + map[bool]string{true: "accepted", false: "rejected"}[real != "reject"])
+		src := itemText(k.toks)
+		if real != model {
+			c.Fail(vh.Failure{Kind: "correspondence", What: "Lean parseProg and parser.ParseProgram disagree on a program skeleton",
+				Case: map[string]interface{}{"tokens": strings.Join(k.toks, " "), "src": src, "class": k.class}, Got: "model: " + model, Want: "real: " + real})
+			continue
+		}
+		if real == "reject" {
+			continue
+		}
+		c.Trace()
+		if got, want := strings.TrimSpace(answers[2*i+1]), strings.TrimSpace("ok "+strings.Join(progLexWords(prints[i]), " ")); got != want {
+			c.Fail(vh.Failure{Kind: "correspondence", What: "Lean showProg and Program.String() print a program skeleton differently",
+				Case: map[string]interface{}{"src": src}, Got: "model: " + got, Want: "real: " + want})
+		}
+	}
+}
